@@ -49,6 +49,10 @@ func c14Oracle(p *Plan) *Verdict {
 		v.violate("compressor-ownership", f, "%s", s)
 	}
 	for i := 0; i < n; i++ {
+		if len(p.RPCs[i].LibFaults) > 0 {
+			v.probe("lib-fault-rpc-not-compared")
+			continue
+		}
 		if p.RPCs[i].Relaxed && requestMalformed(p, i) {
 			// one side fails while the other is active: whatever the interleaving, the client must get a well-formed response
 			// with exactly one terminal disposition, responses being a prefix of those sent, and never a success
@@ -156,6 +160,9 @@ func init() {
 					}
 				} else if c.Prob(0.45) {
 					spoil(c, r, Pick(c, "cut", "corrupt-compressed", "backend-panic", "client-gone", "backend-garbage", "end-garbage", "end-garbage", "undecodable", "corrupt-response", "bad-validation", "lib-fault"))
+					// (an RPC with a failing library call is not compared with its solo run: which call is the k-th depends on
+					// buffer capacities, i.e. on which recycled buffer the pool hands out; pool ownership and the other RPCs
+					// are still judged)
 				}
 				rpcs = append(rpcs, *r)
 			}
